@@ -3,6 +3,7 @@
 package props
 
 import (
+	"bytes"
 	"fmt"
 	"math/big"
 	"math/rand/v2"
@@ -550,6 +551,44 @@ func c20neighbours(c *fw.Ctx) {
 		}
 	}
 	c.Add("mbits_concurrent_neighbour_cases", int64(cases))
+	// several goroutines count zeroes in the same slice at the same time; nobody
+	// writes it: every count must be right and the slice untouched (a function
+	// that scribbles into its argument and repairs it afterwards is a data race
+	// here, and its callers read each other's scribbles)
+	for _, n := range []int{1, 7, 8, 9, 16, 23, 64, 100, 4096 + 5, 1<<20 + 5} {
+		buf2 := make([]byte, n+16)
+		w := buf2[8 : 8+n : 8+n]
+		nz := n - 1 - c.Block%min(n, 7) // zeroes in front, one non-zero byte, zeroes behind
+		if nz < 0 {
+			nz = 0
+		}
+		w[nz] = 0x5a
+		wantL, wantT := naiveLeading(w), naiveTrailing(w)
+		keep := append([]byte(nil), buf2...)
+		var wg sync.WaitGroup
+		var wrong atomic.Int64
+		for g := 0; g < 6; g++ {
+			wg.Add(1)
+			go func() {
+				defer wg.Done()
+				for i := 0; i < 300; i++ {
+					if mbits.LeadingZeroes(w) != wantL || mbits.TrailingZeroes(w) != wantT {
+						wrong.Add(1)
+					}
+					if n > 100000 && i > 20 {
+						break
+					}
+				}
+			}()
+		}
+		wg.Wait()
+		if wrong.Load() > 0 || !bytes.Equal(keep, buf2) {
+			c.Fail(map[string]any{"length": n, "first_nonzero_at": nz}, "6 goroutines counting zeroes in the same unwritten slice: %d wrong counts (want leading %d, trailing %d); slice and surroundings unchanged afterwards: %v", wrong.Load(), wantL, wantT, bytes.Equal(keep, buf2))
+			return
+		}
+		c.Step()
+	}
+	c.Add("mbits_concurrent_same_slice_cases", 10)
 }
 
 func runC20(c *fw.Ctx) {
